@@ -93,9 +93,18 @@ func isStrictAncestor(a, n Node) bool {
 //     have taken every shared CPU of the descendant).
 func (w *verifWorld) checkC03() {
 	p := w.p
-	capShared, capSharedBelow, capReserved := true, true, true
+	capShared, capSharedBelow, capReserved, ledger := true, true, true, true
 	for _, pool := range p.pools {
 		shared, reserved := subtreeGranted(pool)
+		// the same sums from the grants themselves (what the containers were promised)
+		promisedShared, promisedReserved := 0, 0
+		for _, c := range w.ctrs {
+			if g := w.grantOf(c); g != nil && (g.node.IsSameNode(pool) || isStrictAncestor(pool, g.node)) {
+				promisedShared += g.SharedPortion()
+				promisedReserved += g.ReservedPortion()
+			}
+		}
+		ledger = verifAnd(ledger, verifAnd(shared == promisedShared, reserved == promisedReserved))
 		fs := pool.FreeSupply()
 		below := false
 		for _, c := range w.ctrs {
@@ -111,6 +120,7 @@ func (w *verifWorld) checkC03() {
 	verifAssert("C03.cap.shared", capShared)
 	verifAssert("C03.cap.shared.below-slicing-pool", capSharedBelow)
 	verifAssert("C03.cap.reserved", capReserved)
+	verifAssert("C03.ledger-equals-promised", ledger)
 	nonempty, nonemptyNoSharable, nonemptyBelow := true, true, true
 	for _, c := range w.ctrs {
 		g := w.grantOf(c)
@@ -162,6 +172,34 @@ func (w *verifWorld) checkEligibility(c *verifContainer) {
 	}
 }
 
+type verifSupplySnap struct {
+	iso, res, sha    []cpuset.CPUSet
+	gShared, gReserv []int
+}
+
+// supplySnapshot records every pool's free CPU sets and granted counters.
+func (w *verifWorld) supplySnapshot() *verifSupplySnap {
+	s := &verifSupplySnap{}
+	for _, pool := range w.p.pools {
+		f := pool.FreeSupply()
+		s.iso = append(s.iso, f.IsolatedCPUs())
+		s.res = append(s.res, f.ReservedCPUs())
+		s.sha = append(s.sha, f.SharableCPUs())
+		s.gShared = append(s.gShared, f.GrantedShared())
+		s.gReserv = append(s.gReserv, f.GrantedReserved())
+	}
+	return s
+}
+
+func (s *verifSupplySnap) same(o *verifSupplySnap) bool {
+	ok := true
+	for i := range s.iso {
+		ok = verifAnd(ok, verifAnd(s.iso[i].Equals(o.iso[i]), verifAnd(s.res[i].Equals(o.res[i]), s.sha[i].Equals(o.sha[i]))))
+		ok = verifAnd(ok, verifAnd(s.gShared[i] == o.gShared[i], s.gReserv[i] == o.gReserv[i]))
+	}
+	return ok
+}
+
 // verifHistory runs up to `ops` allocate/release requests with symbolic
 // containers against a policy with (optionally symbolic) CPU constraints and
 // calls check after the initial state and after every request.
@@ -181,10 +219,12 @@ func verifHistory(check func(w *verifWorld), onAllocated func(w *verifWorld, c *
 		switch op {
 		case 0:
 			c := w.newContainer(int64(verifParam("maxMilli", 3000)))
+			before := w.supplySnapshot()
 			err := w.p.AllocateResources(c)
 			if err != nil {
 				verifCover("allocate-refused")
 				verifAssert("C03.failed-allocation-leaves-no-grant", w.grantOf(c) == nil)
+				verifAssert("C03.failed-allocation-is-noop", before.same(w.supplySnapshot()))
 			} else {
 				verifCover("allocated")
 				if onAllocated != nil {
